@@ -45,10 +45,11 @@ type scanScenario struct {
 	script   []int // decision indices per response (odometer)
 	randCut  *rand.Rand
 	// C14 endings (0 = never)
-	closeBefore  int // user Close before the k-th Next call
-	cancelBefore int // cancel before the k-th Next call
-	excAtResp    int // the k-th scan response is an exception
-	earlyAtResp  int // the k-th response claims more_results=false (at a row boundary)
+	closeBefore  int  // user Close before the k-th Next call
+	cancelBefore int  // cancel before the k-th Next call
+	byDeadline   bool // ... the context ends by reaching its deadline instead of being cancelled
+	excAtResp    int  // the k-th scan response is an exception
+	earlyAtResp  int  // the k-th response claims more_results=false (at a row boundary)
 	maxCut       int
 	// lease renewal (hrpc.RenewInterval) with the user pausing between Next calls
 	renew time.Duration
@@ -152,6 +153,11 @@ func runScan(sc scanScenario) scanRun {
 	}
 	c := newSimClient(cl, copts...)
 	ctx, cancel := context.WithCancel(context.Background())
+	deadline := time.Now().Add(time.Minute)
+	if sc.byDeadline {
+		cancel()
+		ctx, cancel = context.WithDeadline(context.Background(), deadline)
+	}
 	defer cancel()
 	opts := []func(hrpc.Call) error{}
 	if sc.reversed {
@@ -191,7 +197,12 @@ func runScan(sc scanScenario) scanRun {
 		}
 		if sc.cancelBefore == n {
 			tr.Emit("cancel")
-			cancel()
+			if sc.byDeadline {
+				time.Sleep(time.Until(deadline) + time.Millisecond)
+				synctest.Wait()
+			} else {
+				cancel()
+			}
 		}
 		if sc.think > 0 && n > 1 {
 			time.Sleep(sc.think) // the user is busy with the previous row: renewals keep the region scanner's lease alive
@@ -387,13 +398,13 @@ func TestVerifScan(t *testing.T) {
 						case 0:
 							e.closeBefore = 1 + (count/2)%5
 						case 1:
-							e.cancelBefore = 1 + (count/2)%5
+							e.cancelBefore, e.byDeadline = 1+(count/2)%5, (count/8)%2 == 1
 						case 2:
 							e.excAtResp = 1 + (count/2)%4
 						case 3:
 							e.earlyAtResp = 1 + (count/2)%3
 						}
-						e.name += fmt.Sprintf("/end=%d,%d,%d,%d", e.closeBefore, e.cancelBefore, e.excAtResp, e.earlyAtResp)
+						e.name += fmt.Sprintf("/end=%d,%d,%d,%d,deadline=%v", e.closeBefore, e.cancelBefore, e.excAtResp, e.earlyAtResp, e.byDeadline)
 						do(e)
 						total++
 					}
@@ -409,7 +420,7 @@ func TestVerifScan(t *testing.T) {
 						case 0:
 							rn.closeBefore = 2 + (count/12)%3
 						case 1:
-							rn.cancelBefore = 2 + (count/12)%3
+							rn.cancelBefore, rn.byDeadline = 2+(count/12)%3, (count/24)%2 == 1
 						case 2:
 							rn.excAtResp = 2 + (count/12)%3
 						}
@@ -507,7 +518,7 @@ func TestVerifScan(t *testing.T) {
 			case 0:
 				sc.closeBefore = 1 + rng.Intn(len(rws)+2)
 			case 1:
-				sc.cancelBefore = 1 + rng.Intn(len(rws)+2)
+				sc.cancelBefore, sc.byDeadline = 1+rng.Intn(len(rws)+2), k%2 == 1
 			case 2:
 				sc.excAtResp = 1 + rng.Intn(6)
 			case 3:
